@@ -68,6 +68,19 @@ def mutants(f):
             for m in re.finditer(rx, code):
                 new = code[:m.start()] + rep + code[m.end():]
                 out.append((ln, name, text, new + text[len(code):]))
+        if "--idents" in args:
+            out_ops = [o for o in out if o[0] == ln]
+            for o in out_ops:
+                out.remove(o)            # second sweep: identifier swaps and statement swaps only
+            for a, b in (("visible", "hidden"), ("hidden", "visible"), ("old_", "new_"), ("new_", "old_"), ("consumed", "hidden_reduced"), ("remaining", "incoming_quantity")):
+                for m in re.finditer(r"\b" + a, code):
+                    new = code[:m.start()] + b + code[m.end():]
+                    out.append((ln, "ident:%s->%s" % (a, b), text, new + text[len(code):]))
+            nxt = lines[ln + 1] if ln + 1 < f["line_end"] - 1 else ""
+            if code.rstrip().endswith(";") and nxt.split("//")[0].rstrip().endswith(";") and code.count("(") == code.count(")") and nxt.count("(") == nxt.count(")") \
+                    and not code.strip().startswith("let ") and not nxt.strip().startswith("let "):
+                out.append((ln, "swap-with-next-stmt", text, "SWAP"))
+            continue
         s = code.strip()
         if re.match(r"^self\.[a-z_\.]+\(.*\);$", s) or re.match(r"^(result|queue|orders)\.[a-z_]+\(.*\);$", s):
             out.append((ln, "delete-stmt", text, re.sub(r"\S.*$", "", code) + "();"))
@@ -94,7 +107,11 @@ def main():
     with open(OUT, "a") as out:
         for (f, path, (ln, name, old, new)) in picked:
             orig = open(path).read()
-            lines = orig.split("\n"); lines[ln] = new
+            lines = orig.split("\n")
+            if new == "SWAP":
+                lines[ln], lines[ln + 1] = lines[ln + 1], lines[ln]; new = lines[ln] + " <-> " + lines[ln + 1]
+            else:
+                lines[ln] = new
             open(path, "w").write("\n".join(lines))
             rec = {"fn": f["id"], "file": f["file"], "line": ln + 1, "op": name, "old": old.strip(), "new": new.strip(), "props": sorted(f["props"])}
             t0 = time.time()
